@@ -334,17 +334,21 @@ def authSeqH : Handler := fun inp impl => do
     if getStrD o "op" == "reload" then .reload (secretsOf ((o.getObjVal? "secrets").toOption.getD Json.null))
     else if getStrD o "op" == "remove" then .reload []   -- the file is gone: the refresh clears the credentials
     else .attempt (credOf o))
-  let verdicts := runAuth secrets0 ops
+  -- the model runs over the TEXT of the file (one line per pair, as the harness writes it): the last line of a user counts
+  let opsF : List AuthOpF := ops.map (fun o => match o with | .attempt c => .attempt c | .reload s => .reload (renderSecrets s))
+  let verdicts := runAuthF (fun _ => none) (renderSecrets secrets0) opsF
   let m := Json.mkObj [("verdicts", Json.arr (verdicts.map (fun b => Json.bool b)).toArray)]
   let iv : Option (List Bool) := ((impl.getObjVal? "verdicts").toOption.bind (fun j => j.getArr?.toOption)).bind
     (fun a => a.toList.mapM (fun b => b.getBool?.toOption))
-  -- spec, stated without the model function: walking the history, attempt k is accepted iff the file in force
-  -- lists exactly that (user, password) pair
+  -- spec, stated without the model function: walking the history, attempt k is accepted iff the last line of the
+  -- file in force for that user holds exactly that password
   let rec walk (file : List (List Char × List Char)) : List AuthOp → List Bool → Bool
     | [], [] => true
     | .reload s :: h, vs => walk s h vs
     | .attempt c :: h, v :: vs =>
-      (v == (match c with | some (u, p) => file.any (fun (u', p') => u' == u && p' == p) | none => false)) && walk file h vs
+      (v == (match c with
+        | some (u, p) => (match file.reverse.find? (fun (u', _) => u' == u) with | some (_, p') => p' == p | none => false)
+        | none => false)) && walk file h vs
     | _, _ => false
   let spec := match iv with | some vs => walk secrets0 ops vs | none => false
   -- class: does a valid login precede (without a reload in between) a different pair with the same concatenation
@@ -356,7 +360,10 @@ def authSeqH : Handler := fun inp impl => do
       seen.any (fun (u', p') => (u', p') != (u, p) && u' ++ p' == u ++ p) ||
         collides file (if basicVerdict file (some (u, p)) then (u, p) :: seen else seen) h
   let hasReload := ops.any (fun o => match o with | .reload _ => true | _ => false)
+  let dup (s : List (List Char × List Char)) : Bool := s.length != (s.map (·.1)).eraseDups.length
+  let hasDup := dup secrets0 || ops.any (fun o => match o with | .reload s => dup s | _ => false)
   let tag := if collides secrets0 [] ops then "concat-collision-after-valid-login"
+    else if hasDup then "user-listed-twice"
     else if opsJ.any (fun o => getStrD o "op" == "remove") then "file-removed"
     else if hasReload then "reload" else "plain"
   return ({ model := m, agree := some verdicts == iv, spec := spec,
